@@ -31,6 +31,7 @@ REQUIRED_COUNTERS = [
     "trees.parsed", "shape.explicit_required", "shape.renamed_property", "shape.inherited_class",
     "shape.shared_node", "result_mutated_then_repeated", "twin.equal_after", "history.long",
     "fresh_twin.verdicts_compared", "history.other_classes_used_first", "trees.root_is_subclass",
+    "input.defaultdict",
 ]
 
 ANCHORS = [
@@ -128,6 +129,23 @@ def run_history(ctx, sut, monitors, fpm, element, twin_builder, values, case, f2
     accepted = rejected = 0
     last_fp = before.fp
     for step, value in enumerate(values):
+        if isinstance(value, dict) and step % 7 == 3:
+            # any mapping the library accepts as an object: here a dict with a default factory, whose mere
+            # subscripting would insert members
+            import collections  # pylint: disable=import-outside-toplevel
+
+            plain_outcome = sut.call(element, copy.deepcopy(value))[0]
+            value = collections.defaultdict(lambda: "made-up", value)
+            ctx.count("input.defaultdict")
+            outcome_dd = sut.call(element, value)[0]
+            if fpm.fp_value(dict(value)) != fpm.fp_value(dict(values[step])):
+                ctx.witness("input_mutated", {**case, "step": step, "value": dict(values[step])},
+                            "a defaultdict input gained members during validation: "
+                            f"{sorted(set(value) - set(values[step]))}")
+            elif sut.accepted(outcome_dd) != sut.accepted(plain_outcome):
+                ctx.witness("not_repeatable", {**case, "step": step, "value": dict(values[step])},
+                            f"the same members as a plain dict -> {plain_outcome}, as a defaultdict -> {outcome_dd}")
+            value = values[step]
         value_fp = fpm.fp_value(value)
         pristine = copy.deepcopy(value)
         outcome, result, exc = sut.call(element, value)
